@@ -156,7 +156,7 @@ class Interp:
             out = []
             for s1, v in self.eval(e.operand, env, st, func, depth):
                 if isinstance(e.op, ast.Not):
-                    for s2, b in self.truth(v, s1, ast.unparse(e.operand)):
+                    for s2, b in self.truth(v, s1, ""):
                         out.append((s2, not b))
                 elif isinstance(v, (Arr, Pt)):
                     out.append((s1, join(v)))
@@ -168,7 +168,7 @@ class Interp:
         if isinstance(e, ast.IfExp):
             out = []
             for s1, c in self.eval(e.test, env, st, func, depth):
-                for s2, b in self.truth(c, s1, ast.unparse(e.test)):
+                for s2, b in self.truth(c, s1, ""):
                     out += self.eval(e.body if b else e.orelse, env, s2, func, depth)
             return out
         if isinstance(e, ast.Tuple):
@@ -232,7 +232,7 @@ class Interp:
                 if i == len(e.values) - 1:
                     outs.append((s1, v))
                     continue
-                for s2, b in self.truth(v, s1, ast.unparse(e.values[i])):
+                for s2, b in self.truth(v, s1, ""):
                     if b == is_and:
                         work.append((s2, i + 1))
                     else:
@@ -399,10 +399,28 @@ class Interp:
                     nxt.append((s1, flow, val, env1))
                     continue
                 nxt += self.exec_stmt(s, env1, s1, func, depth)
-            outs = nxt
+            outs = self._dedupe(nxt)
             if len(outs) > 4096:
                 raise AnalysisError("abstract interpreter: too many paths")
         return outs
+
+    @staticmethod
+    def _dedupe(outs):
+        """Merge outcomes that are indistinguishable (same heap, atoms, events,
+        lists, control flow, value and environment): forks on conditions that
+        did not matter re-join here."""
+        if len(outs) < 2:
+            return outs
+        seen = {}
+        for o in outs:
+            s, flow, val, env = o
+            try:
+                k = (s.key(), s.events, tuple(sorted((i, repr(v)) for i, v in s.lists.items())), flow, repr(val),
+                     tuple(sorted((n, repr(v)) for n, v in env.items())))
+            except Exception:  # noqa: BLE001
+                k = id(o)
+            seen.setdefault(k, o)
+        return list(seen.values())
 
     def exec_stmt(self, s: ast.stmt, env: dict, st: State, func: Func, depth: int):
         if isinstance(s, ast.Expr):
@@ -437,13 +455,13 @@ class Interp:
         if isinstance(s, ast.If):
             out = []
             for s1, c in self.eval(s.test, env, st, func, depth):
-                for s2, b in self.truth(c, s1, ast.unparse(s.test)):
+                for s2, b in self.truth(c, s1, ""):
                     out += self.exec_block(s.body if b else s.orelse, env, s2, func, depth)
             return out
         if isinstance(s, ast.Assert):
             out = []
             for s1, c in self.eval(s.test, env, st, func, depth):
-                for s2, b in self.truth(c, s1, ast.unparse(s.test)):
+                for s2, b in self.truth(c, s1, ""):
                     if b:
                         out.append((s2, "next", None, env))
                     elif not isinstance(c, (Sym, _Top)):
